@@ -32,11 +32,12 @@ Mechs == <<
    inputs |-> <<"ep_url", "ep_method", "ep_headers", "id", "fwd_headers", "payload", "ttl", "subject_id", "subject_attr", "values", "rendered_payload", "ep_auth", "ep_apikey", "ep_httpsig", "ep_header_lc", "ep_apikey_cookie", "ep_apikey_query">>,
    shifts |-> <<"ep_headers.k|v", "id|fwd_headers", "fwd_headers|payload", "values.k|v", "ep_auth.k|v", "ep_apikey.k|v", "ep_httpsig.k|v">>, hdr |-> TRUE, val |-> TRUE, hdrdef |-> 0],
   [m |-> "generic_contextualizer", policy |-> <<>>,
-   inputs |-> <<"ep_url", "ep_method", "ep_headers", "id", "fwd_headers", "fwd_cookies", "payload", "ttl", "subject_id", "subject_attr", "values", "rendered_payload", "ep_auth", "ep_apikey", "ep_httpsig", "ep_header_lc", "ep_apikey_cookie", "ep_apikey_query">>,
-   shifts |-> <<"ep_headers.k|v", "fwd_headers|fwd_cookies", "fwd_cookies|payload", "values.k|v", "ep_auth.k|v", "ep_apikey.k|v", "ep_httpsig.k|v">>, hdr |-> TRUE, val |-> TRUE, hdrdef |-> 0],
+   (* fwd_header_value / fwd_cookie_value: the value of a request header / cookie the mechanism forwards to the endpoint *)
+   inputs |-> <<"ep_url", "ep_method", "ep_headers", "id", "fwd_headers", "fwd_cookies", "payload", "ttl", "subject_id", "subject_attr", "values", "rendered_payload", "ep_auth", "ep_apikey", "ep_httpsig", "ep_header_lc", "ep_apikey_cookie", "ep_apikey_query", "fwd_header_value", "fwd_cookie_value">>,
+   shifts |-> <<"ep_headers.k|v", "fwd_headers|fwd_cookies", "fwd_cookies|payload", "values.k|v", "ep_auth.k|v", "ep_apikey.k|v", "ep_httpsig.k|v", "fwd_header_value|fwd_cookie_value">>, hdr |-> TRUE, val |-> TRUE, hdrdef |-> 0],
   [m |-> "generic_authenticator", policy |-> <<"session_lifespan">>,
-   inputs |-> <<"ep_url", "ep_headers", "credential", "payload", "ep_auth", "ep_apikey", "ep_header_lc", "ep_apikey_cookie", "ep_apikey_query">>,
-   shifts |-> <<"ep_headers.k|v", "ep_auth.k|v", "ep_apikey.k|v">>, hdr |-> TRUE, val |-> FALSE, hdrdef |-> 0],
+   inputs |-> <<"ep_url", "ep_headers", "credential", "payload", "ep_auth", "ep_apikey", "ep_header_lc", "ep_apikey_cookie", "ep_apikey_query", "fwd_header_value", "fwd_cookie_value">>,
+   shifts |-> <<"ep_headers.k|v", "ep_auth.k|v", "ep_apikey.k|v", "fwd_header_value|fwd_cookie_value">>, hdr |-> TRUE, val |-> FALSE, hdrdef |-> 0],
   [m |-> "oauth2_introspection", policy |-> <<"assertions">>,
    inputs |-> <<"ep_url", "ep_headers", "credential", "ep_auth", "ep_apikey", "ep_header_lc", "ep_apikey_cookie", "ep_apikey_query">>,
    shifts |-> <<"ep_headers.k|v", "ep_auth.k|v", "ep_apikey.k|v">>, hdr |-> TRUE, val |-> FALSE, hdrdef |-> 2],
@@ -93,13 +94,11 @@ ShiftPairs(mc) ==
   {Pair(mc, "shift", mc.shifts[k], 1, 1, 0,
         [i \in 1..Len(mc.inputs) |-> IF i \in Straddles(mc, mc.shifts[k]) THEN 1 ELSE 0]) : k \in 1..Len(mc.shifts)}
 
-(* left open by the statement's list: second differs from first only in the VALUE of a forwarded   *)
-(* request header (it reaches the remote system but is not among subject, payload, values,         *)
-(* credential).  No demand; whether the result is reused across such requests is only recorded.    *)
-OpenPairs(mc) ==
-  IF mc.m \in {"generic_contextualizer"}
-  THEN {Pair(mc, "open", "fwd_header_value", 1, 1, 0, Zeros(Len(mc.inputs)))}
-  ELSE {}
+(* Pairs without a demand (relation "open": observation only).  The value of a forwarded request    *)
+(* header was one at first; it reaches the remote system and changes its answer, so reuse across    *)
+(* such requests changes a decision - it is an input component now (fwd_header_value) and no open   *)
+(* pair is left.                                                                                     *)
+OpenPairs(mc) == {}
 
 AllPairs == UNION {EqualPairs(Mechs[i]) \cup DifferPairs(Mechs[i]) \cup ShiftPairs(Mechs[i]) \cup OpenPairs(Mechs[i]) :
                      i \in 1..Len(Mechs)}
